@@ -128,8 +128,9 @@ class BindSim:
             mut = rng.choice(MUTATIONS[world['conv']]) if kind == 'near_miss' else None
             markers = {}
             if kind == 'marked' or rng.random() < 0.25:
+                tie = rng.choice(SPEC_LEVELS) if rng.random() < 0.4 else None     # several plug-ins equally sure of this dataset
                 for k in rng.sample(range(4), rng.randint(1, 3)):
-                    markers[f'syn{k}'] = rng.choice(SPEC_LEVELS)
+                    markers[f'syn{k}'] = tie if tie is not None else rng.choice(SPEC_LEVELS)
             if rng.random() < 0.12:
                 markers['syn_raise'] = 1      # a dataset over which one (broken) plug-in's check_dataset raises
             datasets.append({'world': world, 'mut': mut, 'markers': markers})
@@ -169,6 +170,11 @@ class BindSim:
                 if kind == 'mutate':
                     op['how'] = rng.choice(['pop_conventions', 'pop_markers', 'add_attr', 'pop_ems_version'])
                 ops.append(op)
+                if kind == 'register' and rng.random() < 0.5:
+                    # plug-ins tend to be registered together (one import registers several classes)
+                    ops.append({'op': 'register', 'cls': rng.choice(['syn0', 'syn1', 'syn2', 'syn3'])})
+                    if rng.random() < 0.6:
+                        ops.append({'op': 'detect', 'ds': rng.randrange(n_ds)})
             lifetimes_.append({'env': env, 'ops': ops})
         return {'engine': self.name, 'datasets': datasets, 'lifetimes': lifetimes_}
 
@@ -481,6 +487,8 @@ def _bind_lifetime(ctx, dataset_descs, lt):
                     got_raised = False
                 except KeyError:
                     got, got_raised = 'raised', True
+                if allowed and len(allowed) >= 2 and all(c_ in registered for c_ in allowed):
+                    probe('tie_between_registered_conventions')
                 # reference: the same code on a registry without history -- the same registrations in the same order, made
                 # before anything was ever detected.  "A function of the dataset's content alone": what was detected,
                 # accessed or registered *earlier* must not show in the answer.
